@@ -145,6 +145,7 @@ def parse_webvtt(doc):
             raise RefSyntaxError('bad WebVTT timing line %r' % lines[i])
         start, end = _vtt_stamp(m.group(1)), _vtt_stamp(m.group(2))
         settings = (m.group(3) or '').split()
+        settings_raw = m.group(3) or ''
         i += 1
         payload = []
         while i < n and lines[i] != '' and '-->' not in lines[i]:
@@ -155,7 +156,7 @@ def parse_webvtt(doc):
             t, tg = vtt_cue_text(p)
             texts.append(t)
             tags.append(tg)
-        cues.append({'id': ident, 'start': start, 'end': end, 'settings': settings,
+        cues.append({'id': ident, 'start': start, 'end': end, 'settings': settings, 'settings_raw': settings_raw,
                      'raw': payload, 'lines': texts, 'tags': tags})
     return cues
 
